@@ -26,6 +26,11 @@ CHECKS = {
    note="Trusted: MySQL / PostgreSQL identifier quoting rules from the manuals; SQLite validated against the engine. Names ending in [] are excluded for the enum cast (documented array-cast spelling). One genuine defect class repaired by a fix: commit.",
    technique=TECH+"trie of all strings over an alphabet up to a length bound x positions, oracle = reference lexers + real SQLite engine",
    ref="3.4"),
+ "C05": dict(
+   text="All expression trees with <= 2 (quick) / 3 (thorough) operator nodes over the FULL operator alphabet of each dialect (19 common operators incl. LIKE, all PgBinOper / SqliteBinOper, custom operators, NOT, IS [NOT] NULL, [NOT] IN, [NOT] BETWEEN, LIKE..ESCAPE, CAST, enum cast), deeper trees (<= 3 / 4 nodes) over one representative per precedence class, and every leaf kind (value, function, tuple, subquery, CASE, keyword) in every operand slot; built through the public ExprTrait API, rendered on 3 backends, in the default and the option-more-parentheses build. Oracle: a reference Pratt parser with the dialect's documented precedence/associativity table must read the rendering back as exactly the built tree; on SQLite the real engine additionally evaluates the rendering against a fully parenthesised rendering of the built tree over a value table (this also conformance-checks the parser model).",
+   note="Trusted: MySQL / PostgreSQL precedence tables transcribed from the manuals; operand slots where manual and real grammar are known to disagree (MySQL: bare arithmetic right operand of LIKE, boolean BETWEEN bounds) are excluded and counted as excluded_undecidable. Two genuine defects repaired by fix: commits.",
+   technique=TECH+"all expression trees up to a node bound, oracle = reference precedence parser + real SQLite engine",
+   ref="3.5"),
  "C10": dict(
    text="Explicit-state BFS over ALL histories of a 27-operation INSERT alphabet (columns / values / values_panic / values_from_panic / select_from / or_default_values*, column counts 0..3, row lengths 0..4) up to depth 6 (quick) / 8 (thorough) on the real InsertStatement, in lock-step with a plain-list reference model. Per step: Result / panic vs the contract, error counts, statement unchanged after a rejection. Per state: rendering on 3 backends x {to_string, build} parsed back by an independent parser and compared with the model (rectangularity, call order, default-values form).",
    note="Trusted: the reference model of the documented contract (lists), the reference lexer and the 150-line INSERT parser. One genuine defect is a known finding (columns() after a source was accepted).",
